@@ -68,7 +68,7 @@ def main():
                     dst = os.path.join(WT, pkg, 'zz_seed_demo_test.go')
                     shutil.copy(dm, dst)
                     w = sh("go test -vet=off -count=1 -run '^(%s)$' %s 2>&1" % ('|'.join(tests), pkg), cwd=WT)
-                    o['demo_fails_with_change'] = failing(w.stdout)
+                    o['demo_fails_with_change'] = failing(w.stdout) or (['<test binary exit %d: %s>' % (w.returncode, (re.findall(r'^panic: .*', w.stdout, re.M) or ['no FAIL line'])[0][:120])] if w.returncode else [])
                     sh('git apply -R %s' % pt, cwd=WT)
                     wo = sh("go test -vet=off -count=1 -run '^(%s)$' %s 2>&1" % ('|'.join(tests), pkg), cwd=WT)
                     o['demo_fails_without_change'] = failing(wo.stdout)
